@@ -162,20 +162,30 @@ Definition be_mem_less (a b : epod) : bool :=
 Definition be_mem_leb (a b : epod) : bool :=
   be_mem_less a b || (negb (be_mem_less b a) && (p_id a <=? p_id b)).
 
-(* cpu_evict.go:615-621 getBEPodEvictInfoAndSort: CpuUsage = used/request (0 if no request),
-   compared as exact rationals *)
+(* cpu_evict.go:597-621 getBEPodEvictInfoAndSort: CpuUsage = float64(used)/float64(request)
+   (0 without a request), compared as float64 *)
 Definition becpu_used (p : epod) : Z := if p_hasmetric p then p_used p else 0.
-Definition usage_gt (a b : epod) : bool :=   (* CpuUsage a > CpuUsage b *)
-  let ua := if 0 <? p_req1 a then becpu_used a else 0 in
-  let ub := if 0 <? p_req1 b then becpu_used b else 0 in
-  let da := if 0 <? p_req1 a then p_req1 a else 1 in
-  let db := if 0 <? p_req1 b then p_req1 b else 1 in
-  ub * da <? ua * db.
+Definition becpu_ratio (p : epod) : fl :=
+  if 0 <? p_req1 p then fdiv (f_of_int (becpu_used p)) (f_of_int (p_req1 p)) else f0.
+Definition usage_gt (a b : epod) : bool := fltb (becpu_ratio b) (becpu_ratio a).
 Definition be_cpu_less (a b : epod) : bool :=
   if p_prionil a || p_prionil b || (p_prio a =? p_prio b) then usage_gt a b
   else p_prio a <? p_prio b.
 Definition be_cpu_leb (a b : epod) : bool :=
   be_cpu_less a b || (negb (be_cpu_less b a) && (p_id a <=? p_id b)).
+
+(* ---------- metric samples (cpu) ---------- *)
+(* the cpu usage series are float64 CORES; the strategies convert with int64(x*1000).  A sample of
+   u/1000 cores (u an integer, as the harness stores it) reads back as: *)
+Definition milli_of_sample (u : Z) : Z := ftrunc (fmul (fdiv (f_of_int u) f1000) f1000).
+Definition cpu_sample (p : epod) : epod :=
+  mkEpod (p_id p) (p_be p) (p_active p) (p_pol p) (p_prionil p) (p_prio p) (p_enabled p)
+         (p_evprio p) (p_haslab p) (p_lab p) (p_hasmetric p) (milli_of_sample (p_used p))
+         (p_req0 p) (p_req1 p) (p_req2 p).
+Definition cpu_cfg_sample (c : ecfg) : ecfg :=
+  mkEcfg (c_enable c) (c_cap c) (c_usedok c) (milli_of_sample (c_nodeused c)) (c_thrF c) (c_thr c)
+         (c_lowerF c) (c_lower c) (c_evthrF c) (c_evthr c) (c_athrF c) (c_athr c) (c_alowerF c)
+         (c_alower c) (c_aprioF c) (c_aprio c) (c_alloc c) (c_feat c).
 
 (* ---------- list builders ---------- *)
 Definition build_be_mem (f : Z) (pods : list epod) : list epod :=
@@ -202,29 +212,37 @@ Definition used_need (c : ecfg) : rvec :=
        if usage <? c_thr c then []
        else [(0, Z.quot (c_cap c * (usage - lower_eff c)) 100)].
 
-(* calculate(Milli)ReleaseByAllocatableThresholdPercent.  [unit0]: factor by which the amount
-   written for resource 0 is read back (memory 1; cpu 1000: the code stores a milli amount with
-   NewQuantity, i.e. as cores).  The float64 expressions are modelled exactly; they are exact
-   when the node allocatable is a power of two and the lower percent a multiple of 25. *)
+(* calculate(Milli)ReleaseByAllocatableThresholdPercent.  [cpu]: which of the two copies.
+   For resource 0 the cpu copy writes a milli amount with NewQuantity, which the loop reads back
+   as cores (factor 1000).  The float64 expressions are the rounded operations of Lib.SoftF64:
+     if rq/sum > float64(thr)/100:
+       cpu     int64(rq - float64(lower)/100*sum)
+       memory  int64((rq/sum - float64(lower)/100)*sum)                                     *)
 Definition requested (c : ecfg) (pods : list epod) (r : Z) : option Z :=
   let ps := filter (fun p => (eff_prio p <=? c_aprio c) && (rsrc p =? r)) pods in
   match ps with
   | [] => None
   | _ => Some (fold_right (fun p acc => req p + acc) 0 ps)
   end.
-Definition alloc_need_r (unit0 : Z) (c : ecfg) (pods : list epod) (r : Z) : rvec :=
+Definition alloc_amount (cpu : bool) (c : ecfg) (rq a : Z) : Z :=
+  let rqv := f_of_int rq in
+  let sumv := f_of_int a in
+  let low := fdiv (f_of_int (c_alower c)) f100 in
+  if cpu then ftrunc (fsub rqv (fmul low sumv))
+  else ftrunc (fmul (fsub (fdiv rqv sumv) low) sumv).
+Definition alloc_need_r (cpu : bool) (c : ecfg) (pods : list epod) (r : Z) : rvec :=
   match requested c pods r with
   | None => []
   | Some rq =>
     let a := nth (Z.to_nat r) (c_alloc c) (-1) in
-    let scale := if r =? 0 then unit0 else 1 in
+    let scale := if (r =? 0) && cpu then 1000 else 1 in
     if a <=? 0 then [(r, rq)]
-    else if c_athr c * a <? rq * 100
-         then [(r, scale * (rq - Z.quot (c_alower c * a) 100))]
+    else if fltb (fdiv (f_of_int (c_athr c)) f100) (fdiv (f_of_int rq) (f_of_int a))
+         then [(r, scale * alloc_amount cpu c rq a)]
          else []
   end.
-Definition alloc_need (unit0 : Z) (c : ecfg) (pods : list epod) : rvec :=
-  alloc_need_r unit0 c pods 0 ++ alloc_need_r unit0 c pods 1 ++ alloc_need_r unit0 c pods 2.
+Definition alloc_need (cpu : bool) (c : ecfg) (pods : list epod) : rvec :=
+  alloc_need_r cpu c pods 0 ++ alloc_need_r cpu c pods 1 ++ alloc_need_r cpu c pods 2.
 
 Definition has_key (r : Z) (l : rvec) : bool := existsb (fun kv => fst kv =? r) l.
 
@@ -341,8 +359,8 @@ Definition mem_ptasks (c : ecfg) (pods : list epod) : list ptask :=
    then [mkPtask 0 0 (used_need c) RelUsed
            (map (fun p => mkInfo p (used_be p)) (build_be_mem 0 pods))] else [])
   ++
-  (if feat c 1 && alloc_cfg_ok c && negb (is_nil (alloc_need 1 c pods))
-   then [mkPtask 1 1 (alloc_need 1 c pods) (RelAlloc (alloc_need 1 c pods))
+  (if feat c 1 && alloc_cfg_ok c && negb (is_nil (alloc_need false c pods))
+   then [mkPtask 1 1 (alloc_need false c pods) (RelAlloc (alloc_need false c pods))
            (map (fun p => mkInfo p (p_used p * 1000))
                 (build_prio 1 (c_aprio c) req pods))] else [])
   ++
@@ -360,8 +378,8 @@ Definition cpu_ptasks (c : ecfg) (b : becfg) (pods : list epod) : list ptask :=
    then [mkPtask 0 1 (be_need c b) RelBatchReq
            (map (fun p => mkInfo p (becpu_used p)) (build_be_cpu 0 pods))] else [])
   ++
-  (if feat c 1 && alloc_cfg_ok c && negb (is_nil (alloc_need 1000 c pods))
-   then [mkPtask 1 1 (alloc_need 1000 c pods) (RelAlloc (alloc_need 1000 c pods))
+  (if feat c 1 && alloc_cfg_ok c && negb (is_nil (alloc_need true c pods))
+   then [mkPtask 1 1 (alloc_need true c pods) (RelAlloc (alloc_need true c pods))
            (map (fun p => mkInfo p (p_used p)) (build_prio 1 (c_aprio c) req pods))] else [])
   ++
   (if feat c 2 && used_cfg_ok c && c_evthrF c && negb (is_nil (used_need c))
